@@ -448,6 +448,9 @@ def run(ix, R):
     site = IOC + '.interp_bilinear_grid'
     with R.guard('1.region', 'GUARD', site, 'region dispatch'):
         region_obligations(ix, R)
+    # what is served for (T, P) depends on the table and the current mode only, never on earlier requests
+    from rules.common import memo_obligation
+    memo_obligation(ix, R, 'M.memo', ['taurex/opacity/'], 'the opacity classes (what opacity(T, P) returns)')
     # ---- 2. spaces
     with R.guard('2.unit', 'UNIT', IOC, 'log-pressure space'):
         for nm, want in (('logPressure', 'log10(self.pressureGrid)'),
